@@ -130,6 +130,7 @@ struct WriterSess {
     std::string file;
     bool open = false;
     int model = -1;
+    uint64_t max_points = 0;
     bridge::Built built;   // cells written by write_cell come from here
 };
 
@@ -1490,10 +1491,13 @@ struct Exec {
         if (!have_ts) sim::civil_from_time(W->clock.now, &given);
         ErrorCode ec = ErrorCode::NoError;
         J ctx = J::obj();
+        std::string libname = op.getb("like_save") && k >= 0 && k < (int)models.size() ? models[k].name : std::string("SESSION");
+        uint64_t max_points = (uint64_t)op.geti("max_points");
+        s.max_points = max_points;
         bool ok = guarded([&]() {
             if (k >= 0 && k < (int)models.size()) s.built = bridge::build(models[k]);
             set_policy(op);
-            s.w = gdswriter_init(file.c_str(), "SESSION", unit, precision, 0, have_ts ? &ts : NULL, &ec);
+            s.w = gdswriter_init(file.c_str(), libname.c_str(), unit, precision, max_points, have_ts ? &ts : NULL, &ec);
         });
         clear_policy();
         if (ok && s.w.out) {
@@ -1504,6 +1508,8 @@ struct Exec {
             fi.ts_known = true;
             fi.ts = ts6(given);
             fi.model = k;
+            fi.ref = op.gets("ref");
+            if (!fi.ref.empty()) fi.damage = "open_session";
             finfo[file] = fi;
             writers[w] = s;
             count("writer_open");
@@ -1576,13 +1582,14 @@ struct Exec {
         drain_seam_violations(prop, ctx);
         check_handles(prop, ctx);
         finfo[s.file].have_dec = false;
+        if (finfo[s.file].damage == "open_session") finfo[s.file].damage = "";
         // the session's file: strict container, raw cells load as in their source, fresh cells as their model
         gdspeer::Decoded& d = truth(s.file);
         if (!d.ok || !d.strict_ok) {
             viol("C17", "session_file_malformed", "the file written by a GdsWriter session is rejected by the independent decoder: " + d.error, ctx);
         } else {
             if (session_src_canon.count(w)) compare_copied(s.file, session_raw_names[w], session_src_canon[w], ctx);
-            if (s.model >= 0 && !session_cell_names[w].empty()) {
+            if (s.model >= 0 && !session_cell_names[w].empty() && s.max_points <= 4) {
                 Expect E = expect_gds(s.model, 0);
                 canon::CLib got;
                 ErrorCode ec = ErrorCode::NoError;
